@@ -367,6 +367,7 @@ func VerifH_C10_Sync() {
 	kinds := make([]int, n)
 	codes := make([]int, n)
 	paths := make([]string, n)
+	second := make([]string, n) // a failed member may name a second resource (RFC 4918: href+ with status)
 	for i := 0; i < n; i++ {
 		paths[i] = "/dav/u/contacts/ab/" + string(rune('a'+i)) + ".vcf"
 		resp := internal.Response{Hrefs: []internal.Href{{Path: paths[i]}}}
@@ -379,6 +380,10 @@ func VerifH_C10_Sync() {
 			codes[i] = vrt.Int("response-status")
 			vrt.Assume(codes[i] < 200 || codes[i] > 299)
 			resp.Status = &internal.Status{Code: codes[i]}
+			if vrt.Choose("second-href", 2) == 1 {
+				second[i] = "/dav/u/contacts/ab/" + string(rune('a'+i)) + "2.vcf"
+				resp.Hrefs = append(resp.Hrefs, internal.Href{Path: second[i]})
+			}
 		case 2: // the collection itself
 			resp.Hrefs[0].Path = "/dav/u/contacts/ab/"
 			resp.PropStats = []internal.PropStat{{Status: internal.Status{Code: 200}}}
@@ -421,6 +426,9 @@ func VerifH_C10_Sync() {
 			wantUpd = append(wantUpd, paths[i])
 		case 1:
 			wantDel = append(wantDel, paths[i])
+			if second[i] != "" {
+				wantDel = append(wantDel, second[i])
+			}
 		}
 	}
 	vrt.Assert(len(res.Updated) == len(wantUpd), "updated members: exactly the successful ones")
